@@ -11,6 +11,10 @@ func genHistory(r *Rng, cfg *Config, n int, lsW []int, pInterpose float64) []Op 
 			ops = append(ops, appOp(genAppStep(r, cfg)))
 			continue
 		}
+		if pInterpose > 0 && r.Chance(0.08) {
+			ops = append(ops, genBusyWindow(r, cfg, lsW)...)
+			continue
+		}
 		op := genLSOp(r, cfg, lsW)
 		if op.Kind != "sleep" && r.Chance(pInterpose) {
 			k := 1
